@@ -13,7 +13,6 @@ import (
 )
 
 func flushMemstoreContinuously(db *DB) {
-	defer func() { db.doneFlushChannel <- true }()
 	err := func(db *DB) error {
 		for flushAction := range db.storeFlushChannel {
 			err := executeFlush(db, flushAction)
@@ -25,8 +24,12 @@ func flushMemstoreContinuously(db *DB) {
 	}(db)
 
 	if err != nil {
+		// no done signal on this way out (not even a deferred one, it would run while the panic unwinds): a Close that
+		// waits for the flusher must not return as if the last memstore had been flushed while the process goes down
 		log.Panicf("error while merging sstable at %s, error was %v", db.currentSSTablePath, err)
 	}
+
+	db.doneFlushChannel <- true
 }
 
 func executeFlush(db *DB, flushAction memStoreFlushAction) error {
